@@ -385,25 +385,78 @@ Proof.
   - exact Hr.
 Qed.
 
+(* one unfolding of the retry loops (the fuel is never run down in a sequential run: the first
+   round decides) *)
+Lemma create_loop_S : forall fuel k pl e,
+  create_loop (S fuel) k pl e =
+  Cmd (fun now => SETNX (rKey k) pl (expiration e now)) (fun r =>
+    match r with
+    | RBool true => Ret (OVer (p_ver pl))
+    | _ => get_prog k (fun g =>
+             match g with
+             | Some (_, _, v, _) => Ret (OExist v)
+             | None => create_loop fuel k pl e
+             end)
+    end).
+Proof. reflexivity. Qed.
+
+Lemma create_run_present : forall fuel now k pl e sv nx y,
+  s_find now (rKey k) sv = Some y ->
+  run_prog now now 0 (create_loop (S fuel) k pl e) (mkR sv nx) = (mkR sv nx, OExist (p_ver (e_pl y))).
+Proof.
+  intros fuel now k pl e sv nx y Hs. rewrite create_loop_S.
+  cbn [run_prog srv_cmd r_srv r_nxt]. rewrite Hs. unfold get_prog.
+  cbn [run_prog srv_cmd r_srv r_nxt]. rewrite Hs. cbn [option_map run_prog pl_orec]. reflexivity.
+Qed.
+
+Lemma create_run_absent : forall fuel now k pl e sv nx,
+  s_find now (rKey k) sv = None ->
+  run_prog now now 0 (create_loop (S fuel) k pl e) (mkR sv nx) =
+  (mkR (do_set now (rKey k) pl (expiration e now) sv) nx, OVer (p_ver pl)).
+Proof.
+  intros fuel now k pl e sv nx Hs. rewrite create_loop_S.
+  cbn [run_prog srv_cmd r_srv r_nxt]. rewrite Hs. cbn [run_prog r_srv r_nxt]. reflexivity.
+Qed.
+
+(* the whole Create, for any positive fuel: one SETNX, and one GET when it fails *)
+Lemma rk_create_gen : forall fuel now k v e sv nx,
+  run_prog now now 0 (rk_create (S fuel) k v e) (mkR sv nx) =
+  match s_find now (rKey k) sv with
+  | Some y => (mkR sv (S nx), OExist (p_ver (e_pl y)))
+  | None => (mkR (do_set now (rKey k) (mkPl k v nx e) (expiration e now) sv) (S nx), OVer nx)
+  end.
+Proof.
+  intros. unfold rk_create. cbn [run_prog r_srv r_nxt].
+  destruct (s_find now (rKey k) sv) as [y|] eqn:Es.
+  - apply create_run_present. exact Es.
+  - apply create_run_absent. exact Es.
+Qed.
+
+Lemma rk_create_run : forall now k v e sv nx,
+  rk_step (mkR sv nx) now now (Create k v e) =
+  match s_find now (rKey k) sv with
+  | Some y => (mkR sv (S nx), OExist (p_ver (e_pl y)))
+  | None => (mkR (do_set now (rKey k) (mkPl k v nx e) (expiration e now) sv) (S nx), OVer nx)
+  end.
+Proof. intros. exact (rk_create_gen 7 now k v e sv nx). Qed.
+
 Lemma create_ok : forall f lo sp rs now k v e, rinv f lo sp (r_srv rs) (r_nxt rs) -> (lo <= now)%Z -> clean k ->
   step_ok f lo sp rs now (Create k v e).
 Proof.
-  intros f lo sp rs now k v e Hi Hlo Hk.
-  unfold step_ok, rk_step, rk_prog, rk_create, retry_fuel.
-  cbn [ren_op run_prog create_loop srv_cmd step op_floor r_srv r_nxt].
+  intros f lo sp [sv nx] now k v e Hi Hlo Hk. cbn [r_srv r_nxt] in Hi.
+  unfold step_ok. cbn [ren_op step op_floor]. rewrite rk_create_run.
   pose proof (find_rel f lo sp _ _ now k Hi Hlo Hk) as H.
   destruct (find now k sp) as [r|] eqn:Ef.
   - (* the key is there: SETNX fails, GET reads the stored version *)
     exists f. split; [auto|].
-    destruct (s_find now (rKey k) (r_srv rs)) as [y|] eqn:Es; [|contradiction].
-    unfold get_prog. cbn [run_prog srv_cmd r_srv r_nxt]. rewrite Es. cbn [option_map run_prog fst snd r_srv r_nxt ren_out].
-    rewrite H. cbn [pl_orec p_ver]. split; [reflexivity|].
+    destruct (s_find now (rKey k) sv) as [y|] eqn:Es; [|contradiction].
+    cbn [fst snd r_srv r_nxt ren_out]. rewrite H. cbn [p_ver]. split; [reflexivity|].
     eapply rinv_mono; [apply Z.le_max_l|apply Nat.le_succ_diag_r|exact Hi].
-  - destruct (s_find now (rKey k) (r_srv rs)) as [y|] eqn:Es; [contradiction|].
-    destruct (set_rel f lo sp (r_srv rs) (r_nxt rs) now k v e (r_nxt rs) Hi Hk (Nat.le_refl _)) as [Hr Ha].
-    exists (ext f (next sp) (r_nxt rs)). split; [exact Ha|].
+  - destruct (s_find now (rKey k) sv) as [y|] eqn:Es; [contradiction|].
+    destruct (set_rel f lo sp sv nx now k v e nx Hi Hk (Nat.le_refl _)) as [Hr Ha].
+    exists (ext f (next sp) nx). split; [exact Ha|].
     rewrite (do_set_clean _ _ _ _ _ (ri_watch _ _ _ _ _ Hi)).
-    unfold write in *. cbn [fst snd run_prog r_srv r_nxt ren_out] in *. split.
+    unfold write in *. cbn [fst snd r_srv r_nxt ren_out] in *. split.
     + unfold ext. rewrite Nat.eqb_refl. reflexivity.
     + exact Hr.
 Qed.
